@@ -4,6 +4,7 @@ import (
 	"context"
 	"errors"
 	"fmt"
+	"time"
 
 	"github.com/element-of-surprise/coercion/workflow"
 	"github.com/element-of-surprise/coercion/workflow/storage"
@@ -173,6 +174,13 @@ func (v *SimVault) Read(ctx context.Context, id uuid.UUID) (*workflow.Plan, erro
 	}
 	p, err := v.Vault.Read(ctx, id)
 	v.w.Log(Event{Gen: v.gen, Kind: EvRead, Obj: path, Op: "Read", Client: clientOf(ctx), Err: errStr(err)})
+	if d := v.w.ReplyDelay(); d > 0 {
+		// slow reply: the caller gets what was read d ago
+		time.Sleep(d)
+		if !v.w.Park(v.gen, fmt.Sprintf("rr: Read %s c%d", path, clientOf(ctx))) {
+			return nil, errDead
+		}
+	}
 	return p, err
 }
 
